@@ -1,13 +1,14 @@
 (* C15 - String slices are exact, composable views.  Statements only. *)
 From Coq Require Import NArith List Bool Arith.
-From DBG Require Import Spec.Dna Packed.DnaStringModel Packed.SliceModel Algo.SeqHist Proofs.DnaStringProofs Proofs.SliceProofs.
+From DBG Require Import Spec.Dna Packed.KmerModel Packed.DnaStringModel Packed.SliceModel Algo.SeqHist Algo.Iter
+  Proofs.DnaStringProofs Proofs.SliceProofs Proofs.IterProofs Proofs.HammingProofs.
 Import ListNotations.
 Open Scope N_scope.
 
 (* A slice (start, length, is_rc) of a DnaString denotes [sl_view]: the sub-list, reverse-complemented when flagged. *)
 Theorem C15_get : forall d, d_inv d -> forall s i, sl_ok (d_len d) s -> (i < s_length s)%nat ->
   sl_get d s i = Some (nth i (sl_view (d_abs d) s) 0).
-Proof. exact sl_get_spec. Qed.
+Proof. exact SliceProofs.sl_get_spec. Qed.
 Theorem C15_bytes : forall d, d_inv d -> forall s, sl_ok (d_len d) s -> sl_bytes d s = Some (sl_view (d_abs d) s).
 Proof. exact sl_bytes_spec. Qed.
 (* ascii, text (to_dna_string / Display), Debug (repaired code; < 256 bases - longer slices print a summary, specified
@@ -32,6 +33,26 @@ Theorem C15_eq : forall d1 s1 d2 s2, d_inv d1 -> d_inv d2 -> sl_ok (d_len d1) s1
   sl_eq d1 s1 d2 s2 = Some (dna_eqb (sl_view (d_abs d1) s1) (sl_view (d_abs d2) s2)).
 Proof. exact sl_eq_spec. Qed.
 
+(* Hamming distance of two equal-length slices = number of differing positions of the two views: for EVERY length and
+   offset (whole 32-base blocks through Kmer32, then the tail), forward and reverse-complemented views alike.
+   Never panics on equal lengths. *)
+Theorem C15_hamming_dist : forall d1 d2 s1 s2, d_inv d1 -> d_inv d2 -> sl_ok (d_len d1) s1 -> sl_ok (d_len d2) s2 ->
+  s_length s1 = s_length s2 ->
+  sl_hamming_dist d1 s1 d2 s2 = Some (count_diff (sl_view (d_abs d1) s1) (sl_view (d_abs d2) s2)).
+Proof. exact sl_hamming_spec. Qed.
+(* k-mers read from a slice (any shipped k-mer type, forward or rc view, any offset) are the k-mers of the view *)
+Theorem C15_get_kmer : forall c, In c shipped -> forall d s pos, d_inv d ->
+  (s_start s + s_length s <= d_len d)%nat -> (pos + kK c <= s_length s)%nat ->
+  exists r, sl_get_kmer c d s pos = Some r /\ wf (kK c) r /\ decode (kK c) r = kmer_at (kK c) (sl_view (d_abs d) s) pos.
+Proof. exact sl_get_kmer_spec. Qed.
+Example C15_hamming_nonvacuous :
+  match d_from_bytes (repeat 1 40 ++ [2; 3]), d_from_bytes ([3; 0] ++ repeat 2 37 ++ [1; 2; 2]) with
+  | Some a, Some b =>
+      sl_hamming_dist a {| s_start := 2; s_length := 40; s_rc := false |} b {| s_start := 1; s_length := 40; s_rc := true |}
+      = Some 2
+  | _, _ => False end.
+Proof. vm_compute. reflexivity. Qed.
+
 (* non-vacuity: AACCG, slice(1,5).rc().slice(1,3) = rc("ACCG")[1..3] = "GG" *)
 Example C15_nonvacuous :
   match d_from_bytes [0; 0; 1; 1; 2] with
@@ -46,3 +67,5 @@ Print Assumptions C15_bytes.
 Print Assumptions C15_render.
 Print Assumptions C15_composition.
 Print Assumptions C15_eq.
+Print Assumptions C15_hamming_dist.
+Print Assumptions C15_get_kmer.
